@@ -714,6 +714,25 @@ func (x *Exec) pseudoSite(fr *Frame, st *State, key string, args []Value, pos to
 	x.applySiteUpdates(root, fr, st, ms, nil, nil, pos)
 }
 
+// pseudoSiteRes is pseudoSite for a construct that yields a value (bound as `result`).
+func (x *Exec) pseudoSiteRes(fr *Frame, st *State, key string, args []Value, res Value, pos token.Pos) {
+	root := x.root
+	if root == nil || root.spec == nil || fr.parent != nil {
+		return
+	}
+	has := false
+	for _, s := range root.spec.Sites {
+		if strings.HasPrefix(s.Pattern, key) {
+			has = true
+		}
+	}
+	if !has {
+		return
+	}
+	ms := x.matchSites(root, fr, st, key, key, args, pos)
+	x.applySiteUpdates(root, fr, st, ms, res, nil, pos)
+}
+
 // frameWrite / frameRef: under "frame fresh-only" every heap write of the function under proof
 // must target memory allocated by this activation (allocation ids are negative).
 func (x *Exec) frameWrite(fr *Frame, st *State, p PtrV, pos token.Pos) {
@@ -1103,8 +1122,12 @@ func (x *Exec) unop(fr *Frame, st *State, ins *ssa.UnOp) Value {
 			return Scalar{T: "(- " + s.T + ")", Sort: s.Sort, Typ: ins.Type()}
 		}
 	case token.ARROW:
+		// the received value is arbitrary (concurrency is not modelled); a contract may name it
+		// through the pseudo-site builtin.recv($ch), whose result is the value received
 		x.note("channel receive abstracted (concurrency)")
-		return m.freshValue(ins.Type(), "recv")
+		rv := m.freshValue(ins.Type(), "recv")
+		x.pseudoSiteRes(fr, st, "builtin.recv", []Value{v}, rv, ins.Pos())
+		return rv
 	}
 	x.note("unary " + ins.Op.String() + " abstracted")
 	return m.freshValue(ins.Type(), "un")
